@@ -5,3 +5,6 @@ pub assume_specification [isize::abs] (x: isize) -> (r: isize)
 
 pub assume_specification [isize::unsigned_abs] (x: isize) -> (r: usize)
     ensures r == (if x < 0 { -x } else { x as int });
+
+pub assume_specification [isize::abs_diff] (a: isize, b: isize) -> (r: usize)
+    ensures r == (if a >= b { a - b } else { b - a });
